@@ -74,8 +74,8 @@ Proof. vm_compute. repeat split. Qed.
 (* ---- the expression round trip on token lists (partial: Printable.in_fragment) ----
    FULL STATEMENT (not proved):  forall e, printable e = true -> parse_expr_toks (print_toks np ge e) = Some e.
    PROVED: the same with the additional hypothesis in_fragment e = true, which excludes
-   method calls (.contains .. .hasTag, .isEmpty), extension function calls, set and record literals.
-   Inside the fragment: all literals (incl. negative and i64::MIN, strings and entity ids with
+   record literals only.  Inside the fragment: method calls (.contains .. .hasTag, .isEmpty, method-style
+   extension functions), function-style extension calls, set literals, all literals (incl. negative and i64::MIN, strings and entity ids with
    arbitrary scalar values), variables, slots, !, -, == < <= in + - *, && || (including the
    left-associative chains a && b && c, a + b + c, a - b - c, a * b * c that are printed without
    parentheses), if-then-else, .attr and [attr] chains, has, like, is — nested arbitrarily.
